@@ -160,6 +160,25 @@ def run(chk, repo, tier):
                     pa = pre.single_atom() if isinstance(pre, Poly) else None
                     okz = pa is not None and is_app(pa, 'zeros') and pa[2][0] == S('shape')
                     oks = cr[0].bound.get('shape') == S('shape')
+    if not (okz and oks):
+        # one frame per ray may be picked between particle types first (a conditional argument): what matters is that every
+        # pass adds a _cosmic_ray(shape, ...) frame to the accumulator that started as zeros(shape)
+        for p in returns(paths):
+            for lp in [l_ for l_ in p.state.loops if l_['func'] == f.key]:
+                for acc, ph in lp['phi'].items():
+                    pre = lp['pre'].get(acc)
+                    pa = pre.single_atom() if isinstance(pre, Poly) else None
+                    if pa is None or not is_app(pa, 'zeros') or pa[2][0] != S('shape'):
+                        continue
+                    ends = [e.get(acc) for e in lp['ends']]
+                    good = bool(ends)
+                    for e in ends:
+                        d = e - ph if isinstance(e, Poly) else None
+                        da = d.single_atom() if isinstance(d, Poly) else None
+                        good = good and da is not None and is_app(da, 'call:detector._cosmic_ray') and \
+                            dict((k.items[0].value, k.items[1]) for k in da[2]).get('shape') == S('shape')
+                    if good:
+                        okz = oks = True
     chk.ob('C18-f', 'R-shape', f.key, 'accumulates ray frames of the requested shape into zeros(shape)', okz and oks, '', f.loc())
     # the ray is confined to the frame: rows 0..shape[0]-1, columns 0..shape[1]-1, one layer deep
     fcr, cpaths, _ = analyse(repo, 'detector._cosmic_ray')
@@ -170,10 +189,28 @@ def run(chk, repo, tier):
         for e in p.calls('detector._propagate_ray'):
             ne += 1
             ext = e.bound.get('extent')
-            if not (isinstance(ext, Tup) and len(ext) == 6 and Tup(list(ext.items)) == want_ext):
-                oke, dete = False, f'extent = {fmt(ext)[:120]}; expected {fmt(want_ext)}'
+            if isinstance(ext, Tup) and len(ext) == 6:
+                if Tup(list(ext.items)) != want_ext:
+                    oke, dete = False, f'extent = {fmt(ext)[:120]}; expected {fmt(want_ext)}'
+            else:
+                # the tracer is handed something else (the frame shape) and builds the box itself: look there
+                fpr = repo.func('detector._propagate_ray')
+                _, ppaths, _ = analyse(repo, fpr)
+                boxes = [ev.data['args'][0] if ev.data.get('args') else (ev.data.get('bound') or {}).get('extent')
+                         for q in returns(ppaths) for ev in q.events if ev.kind == 'call' and
+                         str(ev.data.get('callee', '')).endswith('_cube_intersections') and 'process' not in str(ev.data.get('callee', ''))]
+                pname = [nm for nm, v in e.bound.items() if v == sh]
+                want_in = nf.subst_value(want_ext, {('sym', 'shape'): S(pname[0])}) if pname else None
+                hit = [b_ for b_ in boxes if isinstance(b_, Tup) and len(b_) == 6]
+                if hit and want_in is not None and all(Tup(list(b_.items)) == want_in for b_ in hit):
+                    pass
+                elif hit and want_in is not None:
+                    oke, dete = False, f'box = {fmt(hit[0])[:120]}; expected {fmt(want_in)}'
+                else:
+                    oke = None if oke else oke
+                    dete = f'the box the ray is traced in is not visible ({fmt(ext)[:60]} is handed to the tracer)'
     chk.ob('C18-f', 'R-shape', fcr.key, 'the ray is traced inside the frame: extent (0, rows-1, 0, cols-1, 0, -1)',
-           (oke and ne > 0) if (ne > 0 or not oke) else None, dete or f'{ne} call(s)', fcr.loc())
+           None if oke is None else ((oke and ne > 0) if (ne > 0 or not oke) else None), dete or f'{ne} call(s)', fcr.loc())
     f, paths, _ = analyse(repo, 'detector._cosmic_ray')
     okn, det = True, ''
     n = 0
